@@ -55,3 +55,6 @@ func VPoolDrain() {}
 
 // VHandleNil reports whether a message handle has been ended (its writer pointer set to nil by End/Build).
 func VHandleNil(m MessageWriter) bool { return m.w == nil }
+
+// VUnwrapList returns the writer behind a list handle.
+func VUnwrapList(l ListWriter) Writer { return l.w }
